@@ -16,20 +16,20 @@ pub fn runs(property: &str, tier: Tier) -> u64 {
     }
     let (quick, thorough) = match property {
         "C01" | "C02" | "C03" | "C04" | "C05" | "C06" | "C08" | "C09"
-        | "C10" | "C39" | "C31" | "C22" | "C34" => (480, 12000),
-        "C40" => (320, 8000),
-        "C41" => (480, 12000),
-        "C27" => (192, 8000),
-        "C38" => (800, 20000),
-        "C07" => (320, 6000),
-        "C12" | "C13" | "C14" => (2400, 100000),
-        "C33" => (4000, 200000),
-        "C15" | "C16" | "C17" | "C36" => (4000, 200000),
-        "C37" => (1600, 40000),
-        "C26" => (960, 40000),
+        | "C10" | "C39" | "C31" | "C22" | "C34" => (480, 6000),
+        "C40" => (320, 4000),
+        "C41" => (480, 6000),
+        "C27" => (192, 1500),
+        "C38" => (800, 10000),
+        "C07" => (320, 4000),
+        "C12" | "C13" | "C14" => (2400, 50000),
+        "C33" => (4000, 100000),
+        "C15" | "C16" | "C17" | "C36" => (4000, 100000),
+        "C37" => (1600, 20000),
+        "C26" => (960, 20000),
         "C25" => (2400, 100000),
-        "C24" => (640, 16000),
-        "C23" => (192, 6000),
+        "C24" => (640, 8000),
+        "C23" => (192, 3000),
         "C19" => (320, 8000),
         _ => (160, 3000),
     };
